@@ -579,6 +579,34 @@ JText(ev, reg, opts) ==
           THEN "value_order"
      ELSE "ok"
 
+\* ------------------------------------------- C11 constants behave like numpy
+\* ev.np: numpy's results on the underlying numeric arrays (observed); ev.res: numpoly's on constant polynomials
+ConstVals(r) ==       \* the numeric values of a result, whether it came back as polynomial or as array
+  IF r.kind = "array" THEN r.vals
+  ELSE LET d == Den(r) IN [k \in 1..Len(d.el) |-> IF d.el[k] = EZero THEN NZero ELSE d.el[k][MOne]]
+JConst(ev, reg) ==
+  IF ev.np_out = "raise" THEN "ok"            \* numpy itself rejects these arguments: outside the quantifier
+  ELSE IF ev.out # "ret" THEN "raised"
+  ELSE IF Len(ev.res) # Len(ev.np) THEN "arity"
+  ELSE First([i \in 1..Len(ev.np) |->
+         LET r == ev.res[i]  w == ev.np[i]
+         IN IF ~HasDen(r) THEN "type"
+            ELSE IF r.kind = "poly" /\ ~DConst(Den(r)) THEN "value_not_constant"
+            ELSE IF r.shape # w.shape THEN "shape"
+            ELSE IF \E k \in 1..Len(w.vals) : ~(ConstVals(r)[k] = w.vals[k] \/ NClose(ConstVals(r)[k], w.vals[k], 40)) THEN "value"
+            ELSE IF w.dtype \in {"bool", "int64"} /\ ev.index_result /\ (r.kind # "array" \/ r.dtype # w.dtype) THEN "type"
+            ELSE "ok"])
+\* numeric division functions given a non-constant polynomial divisor
+JNumericDivide(ev, reg) ==
+  IF DConst(reg[ev.args[2]].d) THEN "ok" ELSE ExpectRaise(ev, "FeatureNotSupported")
+
+\* ------------------------------------------------- C08 dispatch: unsupported numpy calls
+\* ev.registered: whether numpoly's registries (observed at trace time) map this function / ufunc / method
+JUnsupported(ev) ==
+  IF ev.registered THEN "ok"
+  ELSE IF ev.dispatched = FALSE THEN "machinery_no_dispatch"     \* numpy rejected the synthesised arguments before dispatching
+  ELSE ExpectRaise(ev, "FeatureNotSupported")
+
 \* -------------------------------------------------------------- C14 options
 OptAct(ev) == ev.act \in {"set_options", "enter", "exit", "exit_exc", "get_mutate", "get_defaults"}
 NextOpts(ev, opts, ctx) ==
@@ -600,7 +628,7 @@ JOption(ev, opts, ctx) ==
     [] ev.act = "get_defaults" -> IF ev.out = "ret" /\ ev.seen = DefaultOptions THEN "ok" ELSE "defaults"
 
 \* ------------------------------------------------------------------ dispatch
-NeedsDen(ev) == ev.act \in {"text", "copy", "saveload", "loadplain", "polydiv", "same", "copyto", "rebuild", "align", "arith", "unary", "move", "reduce", "call", "deriv", "compare", "extreme", "lead", "tonumpy", "todict", "decompose", "set_dimensions"}
+NeedsDen(ev) == ev.act \in {"numdiv", "text", "copy", "saveload", "loadplain", "polydiv", "same", "copyto", "rebuild", "align", "arith", "unary", "move", "reduce", "call", "deriv", "compare", "extreme", "lead", "tonumpy", "todict", "decompose", "set_dimensions"}
 \* C20: where an exponent cannot be represented the only other allowed outcome is an error
 BigExponent == 55000
 Own(ev, reg, opts, ctx) ==
@@ -612,6 +640,9 @@ Own(ev, reg, opts, ctx) ==
     [] ev.act = "unary" -> JUnary(ev, reg)
     [] ev.act = "move" -> JMove(ev, reg, opts)
     [] ev.act = "reduce" -> JReduce(ev, reg)
+    [] ev.act = "unsupported" -> JUnsupported(ev)
+    [] ev.act = "constfn" -> JConst(ev, reg)
+    [] ev.act = "numdiv" -> JNumericDivide(ev, reg)
     [] ev.act = "text" -> JText(ev, reg, opts)
     [] ev.act = "copy" -> JCopy(ev, reg)
     [] ev.act = "saveload" -> JSaveLoad(ev, reg, opts)
